@@ -99,6 +99,25 @@ def lake_build(targets=("LouModel", "LouProofs", "loumodel")):
     return _lean_built[key]
 
 
+def theorem_modules(theorems):
+    """the modules (files under lean/) whose text declares a theorem of one of these names"""
+    files = []
+    for root in ("LouProofs", "LouModel"):
+        for dp, dn, fn in os.walk(os.path.join(LEAN, root)):
+            files += [os.path.join(dp, f) for f in fn if f.endswith(".lean")]
+    texts = {f: open(f, encoding="utf-8").read() for f in files}
+    mods = []
+    for n in theorems:
+        last = n.split(".")[-1]
+        ns = ".".join(n.split(".")[:-1])
+        for f, t in texts.items():
+            if re.search(r"(?m)^\s*(?:@\[[^\]]*\]\s*)?theorem\s+(?:\S+\.)?%s\b" % re.escape(last), t) and ("namespace " + ns) in t:
+                m = os.path.relpath(f, LEAN)[:-5].replace(os.sep, ".")
+                if m not in mods:
+                    mods.append(m)
+    return sorted(mods)
+
+
 def built_proof_modules():
     """the modules under lean/LouProofs that build on their own right now"""
     mods = []
@@ -595,4 +614,14 @@ def lean_obligations(v, theorems, extra_build_targets=()):
     else:
         for n in theorems:
             v.obligation("theorem " + n, False, "library does not build")
+    if ok and getattr(v, "tier", "quick") == "thorough":
+        # independent re-check of the compiled modules that declare this property's theorems (Lean's `leanchecker`
+        # replays the declarations of an .olean through the kernel, one module per call)
+        mods = theorem_modules(theorems)
+        bad = []
+        for m in mods:
+            r = sh(["lake", "env", "leanchecker", m], cwd=LEAN)
+            if r.returncode != 0:
+                bad.append("%s: %s" % (m, r.stdout[-300:]))
+        v.obligation("leanchecker re-checks the modules declaring the theorems (%s)" % ", ".join(mods), not bad, "; ".join(bad))
     return ok
